@@ -276,6 +276,31 @@ def exhaustive(report, scen):
     report.coverage["exhaustive_small_scope_answers"] = n
 
 
+FAR = [0xfeffffff, 0xff000000, 0xff000001, 0xff123456, 0xfffffffe, 0xffffffff]
+
+
+def far_future(report, scen, rng):
+    """stored events whose created_at, as four big-endian bytes, starts with fe / ff (year 2105 and later; no validator of the
+    default configuration refuses a timestamp in the future): they sort at the very top of every time-ordered index, next to
+    the scanners' ff seek sentinels.  Filters with `since` (and no `until`: the filter validation caps `until` at 2038)"""
+    evs = []
+    times = rng.sample(FAR, rng.choice([2, 3, 4, 5])) + [gen.T0 + rng.choice([0, 1, 256])]
+    for i, t in enumerate(times):
+        evs.append({"id": gen.mkid(rng), "pubkey": rng.choice(gen.AUTHORS[:3]), "created_at": t, "kind": rng.choice([1, 1, 7]),
+                    "tags": [["t", rng.choice(["a", "ab"])]] if rng.random() < 0.5 else [], "content": "", "sig": "00" * 64})
+    rng.shuffle(evs)
+    scen.load(evs)
+    fs = [{"since": gen.T0 - 10}, {"since": rng.choice(times) - 1}, {"since": 0xfefffff0}, {"since": gen.T0 - 10, "until": 2145934799},
+          {"since": gen.T0 - 10, "kinds": [1, 7]}, {"since": gen.T0 - 10, "authors": gen.AUTHORS[:3]},
+          {"since": gen.T0 - 10, "authors": gen.AUTHORS[:3], "kinds": [7, 1]}, {"#t": ["a", "ab"]}, {"kinds": [1]},
+          {"ids": [e["id"] for e in evs], "since": gen.T0 - 10}]
+    for f in fs:
+        for rec in (scen.ask_kv(dict(f)), scen.ask_sql([dict(f)])):
+            oracle(report, scen, rec)
+            record(report, rec)
+        report.count("far_future_store_filters")
+
+
 def run(report, tier, seed):
     rng = random.Random(seed)
     drv = common.Driver()
@@ -300,6 +325,8 @@ def run(report, tier, seed):
             run_case(report, scen, rng)
         for i in range(n[1]):
             run_case(report, scen, rng, adversarial=True)
+        for i in range(6 if tier == "quick" else 60):
+            far_future(report, scen, rng)
         if tier == "thorough":
             exhaustive(report, scen)
     finally:
